@@ -467,6 +467,9 @@ def parent_lookup(prog, an, rep):
                       'their source branch')
         return
     var, test, yes, no, _ = pm_
+    # (whichever way round the test is written)
+    if cond_equiv(None, test, 'not isinstance(%s, IntegrationBranch)' % var):
+        test, yes, no = ast.UnaryOp(op=ast.Not(), operand=test), no, yes
     ok = cond_equiv(None, test, 'isinstance(%s, IntegrationBranch)' % var) \
         and src(yes) == var + '.feature_branch' and src(no) == var + '.name'
     rep.check(ok, R, f.qname + ': integration branch -> its '
